@@ -69,6 +69,20 @@ def make_doc(seed: int, prop: str) -> tuple[dict, dict]:
             doc["paths"][path] = {"get": {"operationId": "op_" + tok, "x-probe": True,
                                           "parameters": [{"name": name, "in": loc, "required": True, "schema": copy.deepcopy(sch)}],
                                           "responses": {"200": {"description": "ok"}}}}
+    # two operations in DIFFERENT tags whose distinct operationIds pythonise to the same module name ("op_xyz" and
+    # "opXyz" both become op_xyz.py, one per tag package): legal, and each must still send its own request
+    if r.random() < 0.2:
+        cands = [(p_, m_) for p_, it in doc["paths"].items() if isinstance(it, dict) for m_, o in it.items()
+                 if isinstance(o, dict) and re.fullmatch(r"op_[a-z]{3}", str(o.get("operationId") or "")) and not o.get("x-probe")]
+        if cands:
+            p_, m_ = cands[r.randrange(len(cands))]
+            first = doc["paths"][p_][m_]
+            first["tags"] = ["alpha-tag"]
+            tok = first["operationId"][3:]
+            doc["paths"][f"/clash{tok}"] = {r.choice(["get", "post", "delete"]): {
+                "operationId": "op" + tok.capitalize(), "tags": ["Beta"],
+                "parameters": [{"name": "clash_q", "in": "query", "required": True, "schema": {"type": "string"}}],
+                "responses": {"200": {"description": "ok"}}}}
     return doc, cfg
 
 
